@@ -1594,6 +1594,8 @@ func (ev *Evaluator) builtin(env *Env, e *ast.CallExpr, name string) Value {
 		return nil
 	case "panic":
 		ev.fail(e.Pos(), "panic reached")
+	case "recover":
+		return Nil{} // no panic is in progress in an interpreted run that got this far (a panic ends the run: "panic reached")
 	case "new":
 		t := info.TypeOf(e.Args[0])
 		cell := &Var{V: ev.zero(e.Pos(), t)}
@@ -1936,7 +1938,7 @@ func (ev *Evaluator) native(pos token.Pos, fn *types.Func, recv Value, args []Va
 		}
 		return S(strings.TrimSpace(s.Const())), true
 	case "strings.HasPrefix", "strings.HasSuffix", "strings.Contains", "strings.TrimPrefix", "strings.TrimSuffix", "strings.TrimLeft", "strings.TrimRight", "strings.ReplaceAll_",
-		"strings.Cut", "strings.CutPrefix", "strings.CutSuffix", "strings.LastIndex":
+		"strings.Cut", "strings.CutPrefix", "strings.CutSuffix", "strings.LastIndex", "strings.Trim":
 		a, b := argStr(0), argStr(1)
 		if !a.IsConst() || !b.IsConst() {
 			ev.fail(pos, "%s of symbolic string", full)
@@ -1953,6 +1955,8 @@ func (ev *Evaluator) native(pos token.Pos, fn *types.Func, recv Value, args []Va
 			return Tuple{S(x), found}, true
 		case "strings.LastIndex":
 			return K(int64(strings.LastIndex(a.Const(), b.Const()))), true
+		case "strings.Trim":
+			return S(strings.Trim(a.Const(), b.Const())), true
 		case "strings.HasPrefix":
 			return strings.HasPrefix(a.Const(), b.Const()), true
 		case "strings.HasSuffix":
